@@ -254,4 +254,296 @@ theorem scan_dests (links : List Cand) (i : Inputs) :
     (Gen.scanLinks links i).dests = links.filter (fun l => (Gen.linkFailure l i).isNone) := by
   unfold Gen.scanLinks; rw [scan_foldl_dests]; simp
 
+/-! ### the sharp domain -/
+
+/-- truncating division by 10^6 in terms of `/` (which `omega` understands) -/
+theorem tdiv_million (a : Int) :
+    a.tdiv 1000000 = if 0 ≤ a then a / 1000000 else -((-a) / 1000000) := by
+  split
+  · next h => exact Int.tdiv_eq_ediv_of_nonneg h
+  · next h =>
+    have h' : 0 ≤ -a := by omega
+    have := Int.tdiv_eq_ediv_of_nonneg (a := -a) (b := 1000000) h'
+    rw [Int.neg_tdiv] at this
+    omega
+
+/-- `InboundFee.CalcFee` is exact when the `int64` product stays inside `[-2^63, 2^63)`. -/
+theorem calcFee_exact_int {ib ir : Int} {amt : Nat} (hib : IsI32 ib)
+    (hamt : amt < 9223372036854775808)
+    (h1 : -9223372036854775808 ≤ clampRate ir * (amt : Int))
+    (h2 : clampRate ir * (amt : Int) < 9223372036854775808) :
+    Gen.calcFee ib ir amt = Spec.inFee ib ir amt := by
+  unfold Gen.calcFee Spec.inFee
+  rw [toI64_id hamt, wrapI64_id h1 h2, tdiv_million]
+  unfold IsI32 at hib
+  generalize clampRate ir * (amt : Int) = P at *
+  apply wrapI64_id <;> split <;> omega
+
+/-- … and ONLY then: if the product leaves `[-2^63, 2^63)` the result differs from the exact fee. -/
+theorem calcFee_wrong_of_wrap {ib ir : Int} {amt : Nat} (hib : IsI32 ib)
+    (hamt : amt < 9223372036854775808)
+    (hw : clampRate ir * (amt : Int) < -9223372036854775808 ∨
+          9223372036854775808 ≤ clampRate ir * (amt : Int)) :
+    Gen.calcFee ib ir amt ≠ Spec.inFee ib ir amt := by
+  unfold Gen.calcFee Spec.inFee
+  rw [toI64_id hamt, tdiv_million, tdiv_million]
+  unfold IsI32 at hib
+  generalize clampRate ir * (amt : Int) = P at *
+  have hP' : wrapI64 P = (P + 9223372036854775808) % 18446744073709551616 - 9223372036854775808 := rfl
+  generalize wrapI64 P = P' at *
+  have hin : wrapI64 (ib + if 0 ≤ P' then P' / 1000000 else -(-P' / 1000000))
+      = ib + if 0 ≤ P' then P' / 1000000 else -(-P' / 1000000) := by
+    apply wrapI64_id <;> split <;> omega
+  rw [hin]
+  split <;> split <;> omega
+
+/-- size of the exact inbound fee when the product stays inside `[-2^63, 2^63)` -/
+theorem spec_inFee_bounds_int {ib ir : Int} {x : Nat} (hib : IsI32 ib)
+    (h1 : -9223372036854775808 ≤ clampRate ir * (x : Int))
+    (h2 : clampRate ir * (x : Int) < 9223372036854775808) :
+    -9225519520503 ≤ Spec.inFee ib ir x ∧ Spec.inFee ib ir x ≤ 9225519520502 := by
+  unfold Spec.inFee
+  rw [tdiv_million]
+  unfold IsI32 at hib
+  generalize clampRate ir * (x : Int) = P at *
+  split <;> omega
+
+/-- `CalcFee` with a rate that clamps to zero is the base fee, whatever the amount. -/
+theorem calcFee_rate_zero {ib ir : Int} (amt : Nat) (hib : IsI32 ib) (h0 : clampRate ir = 0) :
+    Gen.calcFee ib ir amt = ib ∧ Spec.inFee ib ir amt = ib := by
+  unfold Gen.calcFee Spec.inFee
+  rw [h0]
+  unfold IsI32 at hib
+  constructor
+  · rw [Int.zero_mul]
+    have : wrapI64 0 = 0 := by decide
+    rw [this]
+    have : Int.tdiv 0 1000000 = 0 := by decide
+    rw [this, Int.add_zero]
+    apply wrapI64_id <;> omega
+  · rw [Int.zero_mul]
+    have : Int.tdiv 0 1000000 = 0 := by decide
+    rw [this]; omega
+
+/-- Inside `DomWide`, when no money is lost, the code's fee test is exactly the negation of the
+    exact fee rule. -/
+theorem gen_feeCond_iff_wide {p : Policy} {c : Cfg} {i : Inputs} (h : DomWide p c i)
+    (hle : i.outgoing ≤ i.incoming) :
+    (i.incoming < i.outgoing ∨ Gen.actualFee i < Gen.expectedTotal p i) ↔ ¬ Spec.FeeOk p i := by
+  obtain ⟨hin, hmul, hib, hlo, hhi, htot, -, -⟩ := h
+  unfold WIn at hin; unfold WRateMul at hmul; unfold WInBase at hib
+  unfold WInMulLo at hlo; unfold WInMulHi at hhi; unfold WTotal at htot
+  have hbd := spec_inFee_bounds_int (ib := i.inBase) hib (Int.le_of_lt hlo) hhi
+  -- the exact outbound fee fits uint64 (it is bounded through the total)
+  have hofb : Spec.outFee p i.outgoing < 9232597556375278311 := by
+    unfold Spec.requiredFee at htot; omega
+  have hof : Gen.outFee p i = Spec.outFee p i.outgoing := by
+    unfold Gen.outFee Gen.expectedFee
+    unfold Spec.outFee at hofb ⊢
+    rw [Nat.mod_eq_of_lt hmul]
+    generalize i.outgoing * p.feeRate = m at *
+    omega
+  have hinf : Gen.inFee p i
+      = Spec.inFee i.inBase i.inRate (i.outgoing + Spec.outFee p i.outgoing) := by
+    unfold Gen.inFee; rw [hof]
+    by_cases h0 : clampRate i.inRate = 0
+    · rw [(calcFee_rate_zero _ hib h0).1, (calcFee_rate_zero _ hib h0).2]
+    · -- a non-zero rate: the bounded product bounds the amount
+      have hx63 : i.outgoing + Spec.outFee p i.outgoing < 9223372036854775808 := by
+        have hna : (clampRate i.inRate * ((i.outgoing + Spec.outFee p i.outgoing : Nat) : Int)).natAbs
+            < 9223372036854775808 := by omega
+        rw [Int.natAbs_mul, Int.natAbs_natCast] at hna
+        have hr1 : 1 ≤ (clampRate i.inRate).natAbs := by omega
+        have := Nat.mul_le_mul_right (i.outgoing + Spec.outFee p i.outgoing) hr1
+        omega
+      have hx : (i.outgoing + Spec.outFee p i.outgoing) % 18446744073709551616
+          = i.outgoing + Spec.outFee p i.outgoing := by omega
+      rw [hx]
+      exact calcFee_exact_int hib hx63 (Int.le_of_lt hlo) hhi
+  have hexp : Gen.expectedTotal p i = Spec.requiredFee p i := by
+    unfold Gen.expectedTotal
+    unfold Spec.requiredFee at htot ⊢
+    rw [hinf, hof]
+    unfold toI64 wrapI64
+    omega
+  have hact : Gen.actualFee i = (i.incoming : Int) - (i.outgoing : Int) := by
+    unfold Gen.actualFee
+    rw [toI64_id hin, toI64_id (by omega)]
+    apply wrapI64_id <;> omega
+  rw [hexp, hact]; unfold Spec.FeeOk
+  clear hbd hinf hof hexp hact hin hmul hib hlo hhi htot hofb
+  omega
+
+/-- `canSendHtlc` is the exact decision as soon as the two uint32 sums do not wrap. -/
+theorem gen_canSend_eq_wide {p : Policy} {c : Cfg} {amt t h : Nat}
+    (hs : h + c.rejectDelta < 4294967296) (hf : h + c.maxCltv < 4294967296) :
+    Gen.canSendHtlc p c amt t h = Spec.checkHtlcTransit p c amt t h := by
+  have e1 : (h + c.rejectDelta) % 4294967296 = h + c.rejectDelta := by omega
+  have e2 : (c.maxCltv + h) % 4294967296 = h + c.maxCltv := by omega
+  unfold Gen.canSendHtlc Gen.validateHtlcAmount Spec.checkHtlcTransit Spec.MinOk Spec.MaxOk
+    Spec.NotTooSoon Spec.NotTooFar Spec.BwOk
+  rw [e1, e2]
+  by_cases h1 : amt < p.minHtlc
+  · have : ¬ p.minHtlc ≤ amt := by omega
+    simp [h1, this]
+  · have h1' : p.minHtlc ≤ amt := by omega
+    by_cases h2 : p.maxHtlc ≠ 0 ∧ amt > p.maxHtlc
+    · have : ¬ (p.maxHtlc = 0 ∨ amt ≤ p.maxHtlc) := by omega
+      simp [h1, h1', h2]
+    · have h2' : (p.maxHtlc = 0 ∨ amt ≤ p.maxHtlc) := by omega
+      simp only [h1, h2, h1', h2', if_false, not_true]
+      by_cases h3 : t ≤ h + c.rejectDelta
+      · have : ¬ h + c.rejectDelta < t := by omega
+        simp [h3, this]
+      · have h3' : h + c.rejectDelta < t := by omega
+        by_cases h4 : t > h + c.maxCltv
+        · have : ¬ t ≤ h + c.maxCltv := by omega
+          simp [h3, h3', h4, this]
+        · have h4' : t ≤ h + c.maxCltv := by omega
+          by_cases h5 : amt > c.bandwidth
+          · have : ¬ amt ≤ c.bandwidth := by omega
+            simp [h3, h3', h4, h4', h5, this]
+          · have h5' : amt ≤ c.bandwidth := by omega
+            simp [h3, h3', h4, h4', h5, h5']
+
+/-! ### the wire level agrees with the verdict level -/
+
+/-- The update a failure built by `createFailureWithUpdate` embeds. -/
+def pickUpd (alias fetched : Option Upd) : Option Upd :=
+  match alias with
+  | some u => some u
+  | none => fetched
+
+theorem createFailure_some {a f : Option Upd} {u : Upd} (h : pickUpd a f = some u)
+    (cb : Upd → WireFailure) : Gen.createFailureWithUpdate a f cb = cb u := by
+  unfold Gen.createFailureWithUpdate
+  cases a with
+  | some x => simp [pickUpd] at h; simp [h]
+  | none =>
+    cases f with
+    | some y => simp [pickUpd] at h; simp [h]
+    | none => simp [pickUpd] at h
+
+theorem createFailure_none {a f : Option Upd} (h : pickUpd a f = none)
+    (cb : Upd → WireFailure) :
+    Gen.createFailureWithUpdate a f cb = ⟨codeTemporaryNodeFailure, -1, none⟩ := by
+  unfold Gen.createFailureWithUpdate
+  cases a with
+  | some x => simp [pickUpd] at h
+  | none =>
+    cases f with
+    | some y => simp [pickUpd] at h
+    | none => rfl
+
+theorem canSendHtlcLE_eq (p : Policy) (c : Cfg) (i : Inputs) (a f : Option Upd) :
+    Gen.canSendHtlcLE p c i.outgoing i.expOut i.height a f
+      = (Gen.canSendHtlc p c i.outgoing i.expOut i.height).toLinkError i a f := by
+  unfold Gen.canSendHtlcLE Gen.validateHtlcAmountLE Gen.canSendHtlc Gen.validateHtlcAmount
+  by_cases a1 : i.outgoing < p.minHtlc
+  · simp [a1, Verdict.toLinkError, Verdict.carriesUpdate, Verdict.code, Verdict.detail,
+      Verdict.payload, Gen.newLinkError]
+  · by_cases a2 : p.maxHtlc ≠ 0 ∧ i.outgoing > p.maxHtlc
+    · simp [a1, a2, Verdict.toLinkError, Verdict.carriesUpdate, Verdict.code, Verdict.detail,
+        Verdict.payload, Gen.newDetailedLinkError]
+    · simp only [a1, a2, if_false]
+      by_cases a3 : i.expOut ≤ (i.height + c.rejectDelta) % 4294967296
+      · simp [a3, Verdict.toLinkError, Verdict.carriesUpdate, Verdict.code, Verdict.detail,
+          Verdict.payload, Gen.newLinkError]
+      · by_cases a4 : i.expOut > (c.maxCltv + i.height) % 4294967296
+        · simp [a3, a4, Verdict.toLinkError, Verdict.carriesUpdate, Verdict.code, Gen.newLinkError]
+        · by_cases a5 : i.outgoing > c.bandwidth
+          · simp [a3, a4, a5, Verdict.toLinkError, Verdict.carriesUpdate, Verdict.code,
+              Verdict.detail, Verdict.payload, Gen.newDetailedLinkError]
+          · simp [a3, a4, a5, Verdict.toLinkError]
+
+/-- The `*LinkError`-level model of `CheckHtlcForward` (written after the Go text) is the
+    verdict-level model followed by the fixed translation verdict ↦ failure message. -/
+theorem checkHtlcForwardLE_eq (p : Policy) (c : Cfg) (i : Inputs) (a f : Option Upd) :
+    Gen.checkHtlcForwardLE p c i a f = (Gen.checkHtlcForward p c i).toLinkError i a f := by
+  unfold Gen.checkHtlcForwardLE Gen.checkHtlcForward
+  by_cases hfee : i.incoming < i.outgoing ∨ Gen.actualFee i < Gen.expectedTotal p i
+  · simp [hfee, Verdict.toLinkError, Verdict.carriesUpdate, Verdict.code, Verdict.detail,
+      Verdict.payload, Gen.newLinkError]
+  · simp only [hfee, if_false]
+    rw [canSendHtlcLE_eq]
+    cases hcs : Gen.canSendHtlc p c i.outgoing i.expOut i.height <;>
+      try (simp [Verdict.toLinkError, Verdict.carriesUpdate, Verdict.code, Verdict.detail,
+        Verdict.payload]; done)
+    simp only [Verdict.toLinkError]
+    by_cases h1 : i.expIn < i.expOut ∨
+        (if i.expIn ≥ i.expOut then i.expIn - i.expOut else 0) < p.timeLockDelta
+    · simp [h1, Verdict.carriesUpdate, Verdict.code, Verdict.detail,
+        Verdict.payload, Gen.newLinkError]
+    · by_cases h2 : (if i.expIn ≥ i.expOut then i.expIn - i.expOut else 0) > c.maxCltv
+      · simp [h1, h2, Verdict.carriesUpdate, Verdict.code, Gen.newLinkError]
+      · simp [h1, h2]
+
+theorem checkHtlcTransitLE_eq (p : Policy) (c : Cfg) (i : Inputs) (a f : Option Upd) :
+    Gen.checkHtlcTransitLE p c i.outgoing i.expOut i.height a f
+      = (Gen.checkHtlcTransit p c i.outgoing i.expOut i.height).toLinkError i a f :=
+  canSendHtlcLE_eq p c i a f
+
+/-- code / embedded update of the failure a verdict stands for -/
+theorem toLinkError_final {i : Inputs} {a f : Option Upd} {v : Verdict} {e : LinkError}
+    (h : v.toLinkError i a f = some e) :
+    v ≠ .accept ∧
+    (Gen.finalWire e).code
+      = (if v.carriesUpdate = true ∧ pickUpd a f = none then codeTemporaryNodeFailure else v.code) ∧
+    (Gen.finalWire e).upd = (if v.carriesUpdate = true then pickUpd a f else none) := by
+  cases hp : pickUpd a f with
+  | none =>
+    cases v <;>
+      simp [Verdict.toLinkError, Verdict.carriesUpdate, createFailure_none hp] at h <;>
+      subst h <;> simp [Gen.finalWire, Gen.wireMessage, Verdict.carriesUpdate, Verdict.code]
+  | some u =>
+    cases v <;>
+      simp [Verdict.toLinkError, Verdict.carriesUpdate, createFailure_some hp] at h <;>
+      subst h <;> simp [Gen.finalWire, Gen.wireMessage, Verdict.carriesUpdate, Verdict.code]
+
+/-- verdict-level `Violated` implies code-level `CodeViolated` -/
+theorem codeViolated_of_violated {p : Policy} {c : Cfg} {i : Inputs} {v : Verdict} (b : Bool)
+    (h : Spec.Violated p c i v) : Spec.CodeViolated p c i b v.code := by
+  cases v <;> simp [Spec.Violated, Spec.TransitViolated] at h <;>
+    simp [Spec.CodeViolated, Verdict.code, h, codeFeeInsufficient, codeAmountBelowMinimum,
+      codeTemporaryChannelFailure, codeExpiryTooSoon, codeExpiryTooFar, codeIncorrectCltvExpiry]
+
+theorem scan_foldl_errs_cases (i : Inputs) (links : List Cand) (st : Gen.Scan) (k : Nat)
+    (f : SwFailure) (h : (links.foldl (Gen.scanStep i) st).errs k = some f) :
+    st.errs k = some f ∨ ∃ l ∈ links, l.scid = k ∧ Gen.linkFailure l i = some f := by
+  induction links generalizing st with
+  | nil => exact Or.inl h
+  | cons x xs ih =>
+    rw [List.foldl_cons] at h
+    rcases ih _ h with h1 | ⟨l, hl, hk, hf⟩
+    · unfold Gen.scanStep at h1
+      cases hx : Gen.linkFailure x i with
+      | none => simp [hx] at h1; exact Or.inl h1
+      | some g =>
+        simp only [hx] at h1
+        by_cases hk : k = x.scid
+        · simp [hk] at h1
+          exact Or.inr ⟨x, List.mem_cons_self .., hk.symm, by rw [hx, h1]⟩
+        · simp [hk] at h1; exact Or.inl h1
+    · exact Or.inr ⟨l, List.mem_cons_of_mem _ hl, hk, hf⟩
+
+/-- what `linkFailure` can return -/
+theorem linkFailure_cases (l : Cand) (i : Inputs) (f : SwFailure)
+    (h : Gen.linkFailure l i = some f) :
+    (f = .notEligible ∧ l.eligible = false) ∨
+      (l.eligible = true ∧ f = .link (Gen.checkHtlcForward l.p l.c i) ∧
+        Gen.checkHtlcForward l.p l.c i ≠ .accept) := by
+  unfold Gen.linkFailure at h
+  cases he : l.eligible with
+  | false => simp [he] at h; exact Or.inl ⟨h.symm, rfl⟩
+  | true =>
+    right
+    simp only [he, Bool.true_eq_false, if_false] at h
+    cases hv : Gen.checkHtlcForward l.p l.c i <;> simp [hv] at h <;> simp [← h]
+
+theorem find?_scid {links : List Cand} {k : Nat} {l : Cand}
+    (h : links.find? (fun l => l.scid = k) = some l) : l ∈ links ∧ l.scid = k := by
+  refine ⟨List.mem_of_find?_eq_some h, ?_⟩
+  have := List.find?_some h
+  simpa using this
+
 end LndModel.C09
